@@ -197,6 +197,9 @@ class PointerProgram:
             return None
         if 'cv' in o and c not in ('CallExpr', 'CXXMemberCallExpr', 'CXXOperatorCallExpr'):
             return o['cv']
+        if c == 'ConditionalOperator':
+            ks = fn.kids(n)
+            return self.value(fn, ks[1] if self.truth(self.value(fn, ks[0], this, env, depth)) else ks[2], this, env, depth)
         if c == 'UnaryOperator' and o.get('op') == '!':
             return not self.truth(self.value(fn, fn.kids(n)[0], this, env, depth))
         if c == 'BinaryOperator':
